@@ -703,7 +703,10 @@ pub fn check<W: Workload>(w: &W, tier: Tier, plan: BatchPlan) -> i32 {
         "wall_s": (r.wall_s * 100.0).round() / 100.0,
         "violations": violations,
     });
-    let evdir = verif_root().join("evidence");
+    // runs with overridden size or scope (debugging, sweeps) must not replace the evidence of the
+    // registered command
+    let overridden = std::env::var_os("VERIF_RUNS").is_some() || std::env::var_os("SCHED_ONLY").is_some();
+    let evdir = if overridden { verif_root().join("evidence").join("scratch") } else { verif_root().join("evidence") };
     let _ = std::fs::create_dir_all(&evdir);
     let _ = std::fs::write(
         evdir.join(format!("{}.json", w.property())),
